@@ -666,3 +666,78 @@ def local_uses(body, l):
             if op_local(t["cond"]) == l:
                 uses.append((bi, "assert"))
     return uses
+
+
+# ---------------- Result / Try edges ----------------
+
+def result_edges(body, res_local):
+    """for a local holding a Result (or passed through `?`): list of (switch block, ok target, err target).
+    handles `match r {Ok/Err}`, `if let Err(e) = r`, and `r?` (Try::branch -> ControlFlow)"""
+    out = []
+    # locals carrying the same result (moves) and ControlFlow derived via Try::branch
+    carriers = {res_local: "result"}
+    changed = True
+    while changed:
+        changed = False
+        for bi, si, st in body.stmts():
+            if st["s"] == "assign" and not st["pl"]["p"] and st["rv"]["r"] == "use":
+                l = op_local(st["rv"]["o"])
+                if l in carriers and not st["rv"]["o"]["pl"]["p"] and st["pl"]["l"] not in carriers:
+                    carriers[st["pl"]["l"]] = carriers[l]
+                    changed = True
+        for bi, t in body.calls():
+            names = callee_names(t["func"])
+            if names and names[0] == "std::ops::Try::branch" and t["args"] and op_local(t["args"][0]) in carriers:
+                if not t["dest"]["p"] and t["dest"]["l"] not in carriers:
+                    carriers[t["dest"]["l"]] = "cf"
+                    changed = True
+    discr = {}
+    for bi, si, st in body.stmts():
+        if st["s"] == "assign" and st["rv"]["r"] == "discr" and not st["pl"]["p"]:
+            pl = st["rv"]["pl"]
+            if pl["l"] in carriers and not pl["p"]:
+                discr[st["pl"]["l"]] = pl["l"]
+    for bi in range(body.n):
+        t = body.blocks[bi]["term"]
+        if t["t"] != "switch":
+            continue
+        l = op_local(t["discr"])
+        if l not in discr:
+            continue
+        tg = dict((v, b_) for v, b_ in t["targets"])
+        ok_t = tg.get(0)
+        err_t = tg.get(1)
+        if ok_t is None and err_t is not None:
+            ok_t = t["otherwise"]
+        if err_t is None and ok_t is not None:
+            err_t = t["otherwise"]
+        out.append((bi, ok_t, err_t))
+    return out
+
+
+def edge_only_region(body, sw, tgt):
+    """blocks only reachable through edge sw->tgt; None when tgt has other predecessors"""
+    if tgt is None:
+        return None
+    preds = set(p for p in body.pred[tgt] if p in body.dom)
+    if preds != {sw}:
+        return None
+    return set(x for x in body.dom if tgt in body.dom[x])
+
+
+def calls_named(body, *suffixes):
+    out = []
+    for bi, t in body.calls():
+        names = callee_names(t["func"])
+        if any(n == s or n.endswith("::" + s) for n in names for s in suffixes):
+            out.append((bi, t))
+    return out
+
+
+def field_writes(body, field_suffix):
+    """statements/calls that assign to a place whose description ends with field_suffix (e.g. '.num_values')"""
+    out = []
+    for bi, si, st in body.stmts():
+        if st["s"] == "assign" and st["pl"]["p"] and body.pldesc(st["pl"]).endswith(field_suffix):
+            out.append((bi, st))
+    return out
